@@ -45,9 +45,9 @@ P = {
  "C13": ("metamorphic testing: wrap(coloured) stripped == wrap(stripped) for generated insertions of well-formed sequences under the property's side conditions",
          "Exploration: 0..6 SGR/OSC-8 sequences inserted at generated positions (mid-word included), both separators/algorithms, widths that force character-level breaking; sequence list preserved in order, no line ends inside a sequence.",
          "Sequences never touch a hyphen when the hyphen splitter is active and always touch a non-space character (side conditions of the statement). Cases matching the open known finding KF-C13-1 (hyphen splitter and a hyperlink whose URL contains a hyphen split point) are excluded before the assertion and counted in excluded_known; see known_findings.json."),
- "C14": ("metamorphic testing: idempotence fill(fill(t,o),o)==fill(t,o) on the stated domain, with one open known finding excluded by signature and counted",
+ "C14": ("metamorphic testing: idempotence fill(fill(t,o),o)==fill(t,o) on the stated domain, with two open known findings excluded by signature and counted",
          "Exploration of the idempotence relation over full-alphabet texts; domain conditions of the statement evaluated per case.",
-         "Cases matching KF-C14-1 (hyphen splitter cuts inside an escape sequence) are excluded before the assertion and counted in excluded_known; see known_findings.json."),
+         "Cases matching KF-C14-1 (hyphen splitter cuts inside an escape sequence) or KF-C14-2 (Unicode separator: a piece cut off at a hyphen has, on its own, a break opportunity it did not have inside its word) are excluded before the assertion and counted in excluded_known; see known_findings.json."),
  "C15": ("round-trip testing fill->unfill over a vocabulary/indent/width space plus structural validity predicates on arbitrary strings; libFuzzer byte target in the thorough tier",
          "Exploration: unfill(fill(p)) returns p, indents, ending and width on the stated domain; for arbitrary strings the returned indents are prefix-character prefixes of their lines, the text has no interior line break, and the reported ending follows the stated rule.",
          "Round-trip half restricted to options that break at spaces only (ASCII separator, no splitter, break_words off)."),
@@ -112,7 +112,7 @@ def main():
              "kind_free_text": "cargo-fuzz crate with one libFuzzer target (fuzz_targets/prop.rs); TW_FUZZ_PROPERTY selects the property, bytes are decoded by the harness's own decoders into the same case structs and judged by the same oracles; used by the thorough tier only (8 jobs, fixed -runs, -seed derived from VERIF_SEED); a failure is re-judged in the plain harness before it is reported"},
         ],
         "checks": checks,
-        "notes": "Exit 0 = held on everything explored (KNOWN-FINDING lines possible); exit 1 + VIOLATION line; exit 2 = inconclusive (build failure, unhealthy generator, watchdog). Repairs of genuine defects are the five 'fix:' commits in /repo, recorded in /verif/known_findings.json together with three open findings of one root cause (KF-C05-1, KF-C13-1, KF-C14-1). Sensitivity evidence: MUTATION.md, mutants/, seeded/.",
+        "notes": "Exit 0 = held on everything explored (KNOWN-FINDING lines possible); exit 1 + VIOLATION line; exit 2 = inconclusive (build failure, unhealthy generator, watchdog). Repairs of genuine defects are the five 'fix:' commits in /repo, recorded in /verif/known_findings.json together with three open findings of one root cause (KF-C05-1, KF-C13-1, KF-C14-1) and one of another (KF-C14-2). Sensitivity evidence: MUTATION.md, mutants/, seeded/.",
     }
     if na:
         m["not_applicable"] = na
